@@ -2,6 +2,7 @@ import OSq.Proofs.RotAlgebra
 import OSq.Proofs.Construct
 import OSq.Proofs.GateTable
 import OSq.Proofs.Shape
+import OSq.Proofs.Equality
 import Mathlib.Tactic.Ring
 import Mathlib.Tactic.Linarith
 import Mathlib.Tactic.FinCases
@@ -45,6 +46,16 @@ import Mathlib.Tactic.FinCases
   * `cnot_off_branch`, `cnot_on_branch`   control off: `A·B·C = 1`; control on: `A·X·B·X·C = Rz(t2)·Ry(t1)·Rz(t0)`
   * `listOp4_cnot_general`     the unfiltered two-CNOT circuit as `ε • bd (e^{-iφ'/2}•1) (e^{iφ'/2}•Rz(t2)Ry(t1)Rz(t0))`
   * `cnot_general_sem`         general path of `cnotDecompose`: `listOp4 c t out = s • bd 1 (rot n α φ)`, `‖s‖ = 1`
+  * `cnot_shortcut_phase`      matrix level: `W = μ•U`, `A·B = ε•1`, `ph = arg(U_l/W_l·ε)` ⇒ both branches carry `s = e^{-iph'/2}ε`
+  * `shortcut_off_branch`, `shortcut_on_branch`, `listOp4_cnot_shortcut`   `A·B = 1`, `A·X·B = X·Rz(θ2)Ry(θ1)Rz(θ2)`
+  * `shortcutPhase`, `cnot_form_shortcut`   the phase the model measures, and the exact output of the one-CNOT path with it
+  * `prod2_n`, `xStmt_real`, `shortcutPhase_spec`   the measured phase in Mathlib vocabulary (pivot = an entry of maximal modulus)
+  * `ShortcutCrisp`, `cnot_shortcut_sem`   one-CNOT path: guard crisp ⇒ `W ∝ U` ⇒ `listOp4 c t out = s • bd 1 (rot n α φ)`
+  * `GeneralCrisp`, `cnot_sem`  both paths in one statement
+  * `cnotDecompose_ok`         the decomposer succeeds as soon as `compose(X,U)` and the two Z-Y-Z computations do
+  Examples (non-vacuity): `Rx(π/2)·e^{i/3}` through Z-Y-Z (`ex_abaAngles`); `X∘Z` composition; McKay on a rotation about
+  `-z` and the generic identity at `Rx(1)`; controlled `e^{i/3}Rx(π/2)` through the two-CNOT path of `cnot_sem`
+  (`dsEx2_compose`, `dsEx2_abaAngles`); `cnot_shortcut_phase` at `U = σx`, `W = iσx`.
 -/
 set_option linter.unnecessarySeqFocus false
 set_option linter.unusedSimpArgs false
@@ -1008,7 +1019,598 @@ theorem cnot_general_sem (atol : ℝ) (c t : Int) (n : Vec3 ℝ) (α φ : ℝ) (
       · exact crispId4_rotStmt atol hat.le hatπ _ _ _ _ (hf _ (by simp))
       · exact crispId4_rotStmt atol hat.le hatπ _ _ _ _ (hf _ (by simp))
 
+/-! #### the one-CNOT shortcut path -/
+
+/-- **the measured phase of the shortcut path.**  If the control-on target operator `W = A·X·B` is proportional to
+    `U` (`W = μ•U`, `‖μ‖ = 1`), the control-off operator is `A·B = ε•1` (`‖ε‖ = 1`), and the phase is measured as
+    the code does, `ph = arg(U_l / W_l · (A·B)₀₀)` at an entry where `U_l ≠ 0`, then after the `Rz(ph)` on the
+    control (angle `ph' ≡ ph mod 2π`) both branches carry the same factor `s = e^{-iph'/2}·ε`:
+    control off `e^{-iph'/2}•(ε•1) = s•1`, control on `e^{iph'/2}•W = s•U`. -/
+theorem cnot_shortcut_phase (U W : Matrix (Fin 2) (Fin 2) ℂ) (ε μ : ℂ) (hε : ‖ε‖ = 1) (hμ : ‖μ‖ = 1)
+    (hW : W = μ • U) (i j : Fin 2) (hU : U i j ≠ 0) (ph ph' : ℝ) (k : ℤ)
+    (hph : ph = Complex.arg (U i j / W i j * ε)) (hk : ph' = ph + 2 * Real.pi * k) :
+    Complex.exp (-(I * (ph' / 2 : ℝ))) • (ε • (1 : Matrix (Fin 2) (Fin 2) ℂ))
+        = (Complex.exp (-(I * (ph' / 2 : ℝ))) * ε) • 1 ∧
+    Complex.exp (I * (ph' / 2 : ℝ)) • W = (Complex.exp (-(I * (ph' / 2 : ℝ))) * ε) • U := by
+  have hμ0 : μ ≠ 0 := by intro h; rw [h, norm_zero] at hμ; exact zero_ne_one hμ
+  have hq : U i j / W i j * ε = ε / μ := by
+    rw [hW, Matrix.smul_apply, smul_eq_mul]; field_simp
+  have hn : ‖ε / μ‖ = 1 := by rw [norm_div, hε, hμ, div_one]
+  have hexp : Complex.exp (I * ph) = ε / μ := by
+    have := Complex.norm_mul_exp_arg_mul_I (ε / μ)
+    rw [hn, Complex.ofReal_one, one_mul] at this
+    rw [hph, hq, mul_comm]; exact this
+  refine ⟨by rw [smul_smul], ?_⟩
+  rw [ctrl_phase_split ph ph' k hk, hexp, hW, smul_smul]
+  congr 1
+  field_simp
+
+/-- control off (one-CNOT form): `A·B = 1` -/
+theorem shortcut_off_branch (θ1 θ2 : ℝ) :
+    rot (eAxis 2) (-θ2) 0 * (rot (eAxis 1) (-θ1 / 2) 0 * (rot (eAxis 1) (θ1 / 2) 0 * rot (eAxis 2) θ2 0)) = 1 := by
+  rw [← Matrix.mul_assoc (rot (eAxis 1) (-θ1 / 2) 0), rot_axis_add, show -θ1 / 2 + θ1 / 2 = 0 by ring, rot_zero,
+    Matrix.one_mul, rot_axis_add, neg_add_cancel, rot_zero]
+
+/-- control on (one-CNOT form): `A·X·B = X·Rz(θ2)·Ry(θ1)·Rz(θ2)` -/
+theorem shortcut_on_branch (θ1 θ2 : ℝ) :
+    rot (eAxis 2) (-θ2) 0 * (rot (eAxis 1) (-θ1 / 2) 0 * (Xop * (rot (eAxis 1) (θ1 / 2) 0 * rot (eAxis 2) θ2 0)))
+      = Xop * (rot (eAxis 2) θ2 0 * rot (eAxis 1) θ1 0 * rot (eAxis 2) θ2 0) := by
+  have key : rot (eAxis 2) (-θ2) 0 * (rot (eAxis 1) (-θ1 / 2) 0 * (Xop * (rot (eAxis 1) (θ1 / 2) 0 *
+      rot (eAxis 2) θ2 0)))
+      = Xop * ((Xop * rot (eAxis 2) (-θ2) 0 * Xop) * ((Xop * rot (eAxis 1) (-θ1 / 2) 0 * Xop) *
+          (rot (eAxis 1) (θ1 / 2) 0 * rot (eAxis 2) θ2 0))) := by
+    simp only [Matrix.mul_assoc]
+    rw [← Matrix.mul_assoc Xop Xop, Xop_mul_self, Matrix.one_mul]
+    congr 1
+    rw [← Matrix.mul_assoc Xop Xop, Xop_mul_self, Matrix.one_mul]
+  rw [key, X_conj_ry, X_conj_rz, neg_neg, ← Matrix.mul_assoc (rot (eAxis 1) (-(-θ1 / 2)) 0), rot_axis_add,
+    show -(-θ1 / 2) + θ1 / 2 = θ1 by ring, Matrix.mul_assoc]
+
+/-- the unfiltered one-CNOT circuit as a block matrix -/
+theorem listOp4_cnot_shortcut (atol : ℝ) (h0 : 0 < atol) (h1 : atol < Real.pi) (c t : Int) (hct : c ≠ t)
+    (θ1 θ2 ph : ℝ) :
+    ∃ ε : ℂ, ‖ε‖ = 1 ∧
+      listOp [rotStmt atol "Rz" t (eAxis 2) θ2, rotStmt atol "Ry" t (eAxis 1) (θ1 / 2),
+        rotStmt atol "Ry" t (eAxis 1) (-θ1 / 2), rotStmt atol "Rz" t (eAxis 2) (-θ2)] = ε • 1 ∧
+      listOp [rotStmt atol "Rz" t (eAxis 2) θ2, rotStmt atol "Ry" t (eAxis 1) (θ1 / 2),
+        (.bsr t (eAxis 0) Real.pi (Real.pi / 2), some ⟨"X", [.qubit t]⟩),
+        rotStmt atol "Ry" t (eAxis 1) (-θ1 / 2), rotStmt atol "Rz" t (eAxis 2) (-θ2)]
+        = ε • (Xop * (rot (eAxis 2) θ2 0 * rot (eAxis 1) θ1 0 * rot (eAxis 2) θ2 0)) ∧
+      listOp4 c t [rotStmt atol "Rz" t (eAxis 2) θ2, rotStmt atol "Ry" t (eAxis 1) (θ1 / 2),
+        cnotStmt atol c t (eAxis 0), rotStmt atol "Ry" t (eAxis 1) (-θ1 / 2),
+        rotStmt atol "Rz" t (eAxis 2) (-θ2), rotStmt atol "Rz" c (eAxis 2) ph]
+      = bd (Complex.exp (-(I * (normalizeAngle atol ph / 2 : ℝ))) • (ε • 1))
+           (Complex.exp (I * (normalizeAngle atol ph / 2 : ℝ)) •
+              (ε • (Xop * (rot (eAxis 2) θ2 0 * rot (eAxis 1) θ1 0 * rot (eAxis 2) θ2 0)))) := by
+  obtain ⟨k1, -, r1⟩ := GateTable.rot_nA atol θ2 (eAxis 2)
+  obtain ⟨k2, -, r2⟩ := GateTable.rot_nA atol (θ1 / 2) (eAxis 1)
+  obtain ⟨k3, -, r3⟩ := GateTable.rot_nA atol (-θ1 / 2) (eAxis 1)
+  obtain ⟨k4, -, r4⟩ := GateTable.rot_nA atol (-θ2) (eAxis 2)
+  refine ⟨(-1) ^ k4 * ((-1) ^ k3 * ((-1) ^ k2 * (-1) ^ k1)), ?_, ?_, ?_, ?_⟩
+  · simp only [norm_mul, norm_neg_one_zpow, one_mul]
+  · simp only [listOp_cons, listOp_nil, Matrix.one_mul, rotStmt_real atol h0.le h1, opOf_bsr, r1, r2, r3, r4]
+    simp only [smul_mul_assoc, mul_smul_comm, smul_smul, Matrix.mul_assoc, shortcut_off_branch]
+    congr 1; ring
+  · simp only [listOp_cons, listOp_nil, Matrix.one_mul, rotStmt_real atol h0.le h1, opOf_bsr, r1, r2, r3, r4]
+    simp only [smul_mul_assoc, mul_smul_comm, smul_smul, Matrix.mul_assoc]
+    rw [show rot (eAxis 0) Real.pi (Real.pi / 2) = Xop from rfl, shortcut_on_branch]
+    simp only [Matrix.mul_assoc]
+    congr 1; ring
+  · simp only [listOp4_cons, listOp4_nil, Matrix.one_mul, rotStmt_real atol h0.le h1, op4_target,
+      op4_rz_control c t hct, op4_cnotStmt atol h0 h1, r1, r2, r3, r4]
+    simp only [bd_mul, Matrix.one_mul, Matrix.mul_one, Matrix.mul_assoc, Matrix.smul_mul, smul_mul_assoc,
+      mul_smul_comm, smul_smul, shortcut_off_branch, shortcut_on_branch]
+    congr 1
+    · congr 1; ring
+    · congr 1; ring
+
+private theorem bindOk' {ε β γ : Type} {x : Except ε β} {f : β → Except ε γ} {c : γ} :
+    (x >>= f) = .ok c ↔ ∃ a, x = .ok a ∧ f a = .ok c := by
+  cases x <;> simp [bind, Except.bind]
+
+/-- the phase the one-CNOT path measures (`cnot_decomposer.py`: `np.angle(U[l] / W[l] * (A·B)[0,0])`, `l` the
+    arg-max entry of `W = A·X·B`), as the model computes it -/
+noncomputable def shortcutPhase (atol : ℝ) (t : Int) (n : Vec3 ℝ) (α φ θ1 θ2 : ℝ) : ℝ :=
+  let b : List (GStmt ℝ) := [rotStmt atol "Rz" t (eAxis 2) θ2, rotStmt atol "Ry" t (eAxis 1) (θ1 / two)]
+  let a : List (GStmt ℝ) := [rotStmt atol "Ry" t (eAxis 1) (-θ1 / two), rotStmt atol "Rz" t (eAxis 2) (-θ2)]
+  let x : GStmt ℝ := xStmt atol t (eAxis 0)
+  let ab := prod2 (b ++ a)
+  let axb := prod2 (b ++ [x] ++ a)
+  let tm := can1 n α φ
+  let l := argmaxAbs axb
+  Cx.arg (Cx.div (tm.d.getD l Cx.zero) (axb.d.getD l Cx.zero) * ab.get 0 0)
+
+/-- exact form of the one-CNOT path **with its phase**: when the guard fires the output is the filtered 6-gate list
+    whose last gate is `Rz(shortcutPhase …)` on the control -/
+theorem cnot_form_shortcut {atol : ℝ} {c t : Int} {n : Vec3 ℝ} {α φ : ℝ} {nm : Option (Named ℝ)}
+    {out : List (GStmt ℝ)} (h : cnotDecompose atol (.ctrl c (.bsr t n α φ), nm) = .ok out) :
+    ∃ xu θ0 θ1 θ2, c ≠ t ∧
+      composeRot atol ⟨t, eAxis 0, normalizeAngle atol π, normalizeAngle atol (π / sc 2), some ⟨"X", [.qubit t]⟩⟩
+        ⟨t, n, α, φ, none⟩ = .ok xu ∧
+      abaAngles atol .ZYZ xu.angle xu.axis = .ok (θ0, θ1, θ2) ∧
+      (absS (pymod (θ0 - θ2) (two * π)) < atol → out = filterOutIdentities atol
+          [rotStmt atol "Rz" t (eAxis 2) θ2, rotStmt atol "Ry" t (eAxis 1) (θ1 / two), cnotStmt atol c t (eAxis 0),
+           rotStmt atol "Ry" t (eAxis 1) (-θ1 / two), rotStmt atol "Rz" t (eAxis 2) (-θ2),
+           rotStmt atol "Rz" c (eAxis 2) (shortcutPhase atol t n α φ θ1 θ2)]) := by
+  simp only [cnotDecompose, bindOk'] at h
+  obtain ⟨x, hx, h⟩ := h
+  obtain ⟨axX, hX, rfl⟩ := (named_X_iff ..).1 hx
+  obtain rfl := mkAxis_axisLit_inj hX
+  simp only [xStmt, gstmtToRot, bindOk'] at h
+  obtain ⟨xu, hxu, ⟨θ0, θ1, θ2⟩, hang, cn, hcn, h⟩ := h
+  obtain ⟨axX', hX', hct, rfl⟩ := (named_CNOT_iff ..).1 hcn
+  obtain rfl := mkAxis_axisLit_inj hX'
+  refine ⟨xu, θ0, θ1, θ2, hct, hxu, hang, fun hg => ?_⟩
+  simp only [hg, if_true, bindOk'] at h
+  obtain ⟨r1, h1, r2, h2, r3, h3, r4, h4, r5, h5, h⟩ := h
+  obtain ⟨axY, hY, rfl⟩ := (named_Ry_iff ..).1 h1
+  obtain rfl := mkAxis_axisLit_inj hY
+  obtain ⟨axZ, hZ, rfl⟩ := (named_Rz_iff ..).1 h2
+  obtain rfl := mkAxis_axisLit_inj hZ
+  obtain ⟨axZ', hZ', rfl⟩ := (named_Rz_iff ..).1 h3
+  obtain rfl := mkAxis_axisLit_inj hZ'
+  obtain ⟨axY', hY', rfl⟩ := (named_Ry_iff ..).1 h4
+  obtain rfl := mkAxis_axisLit_inj hY'
+  obtain ⟨axZ', hZ', rfl⟩ := (named_Rz_iff ..).1 h5
+  obtain rfl := mkAxis_axisLit_inj hZ'
+  cases h
+  rfl
+
+private theorem foldl_n (f : Mat ℝ → GStmt ℝ → Mat ℝ) (hf : ∀ acc g, acc.n = 2 → (f acc g).n = 2)
+    (l : List (GStmt ℝ)) (acc : Mat ℝ) (h : acc.n = 2) : (l.foldl f acc).n = 2 := by
+  induction l generalizing acc with
+  | nil => exact h
+  | cons g l ih => exact ih _ (hf acc g h)
+
+theorem prod2_n (l : List (GStmt ℝ)) : (prod2 l).n = 2 := by
+  unfold prod2
+  apply foldl_n _ _ _ _ rfl
+  rintro acc ⟨g, nm⟩ h
+  cases g with
+  | bsr q a θ φ => rfl
+  | matrix m ops => exact h
+  | ctrl c g => exact h
+
+theorem xStmt_real (atol : ℝ) (h0 : 0 < atol) (h1 : atol < Real.pi) (t : Int) :
+    xStmt atol t (eAxis 0) = (.bsr t (eAxis 0) Real.pi (Real.pi / 2), some ⟨"X", [.qubit t]⟩) := by
+  have hpi := Real.pi_pos
+  unfold xStmt
+  have e : (π / sc 2 : ℝ) = Real.pi / 2 := by simp
+  rw [e, pi_real, normalizeAngle_id_of_window atol _ h0.le h1 (by linarith) (by linarith),
+    normalizeAngle_id_of_window atol _ h0.le h1 (by linarith) (by linarith)]
+
+/-- the measured phase in Mathlib vocabulary: `arg(U_ij / W_ij · (A·B)₀₀)` at an entry `(i, j)` of maximal
+    modulus of `W = A·X·B` (operators of the emitted lists) -/
+theorem shortcutPhase_spec (atol : ℝ) (h0 : 0 < atol) (h1 : atol < Real.pi) (t : Int) (n : Vec3 ℝ)
+    (α φ θ1 θ2 : ℝ) :
+    ∃ i j : Fin 2,
+      (∀ i' j' : Fin 2,
+        ‖listOp [rotStmt atol "Rz" t (eAxis 2) θ2, rotStmt atol "Ry" t (eAxis 1) (θ1 / 2),
+          (.bsr t (eAxis 0) Real.pi (Real.pi / 2), some ⟨"X", [.qubit t]⟩),
+          rotStmt atol "Ry" t (eAxis 1) (-θ1 / 2), rotStmt atol "Rz" t (eAxis 2) (-θ2)] i' j'‖
+        ≤ ‖listOp [rotStmt atol "Rz" t (eAxis 2) θ2, rotStmt atol "Ry" t (eAxis 1) (θ1 / 2),
+          (.bsr t (eAxis 0) Real.pi (Real.pi / 2), some ⟨"X", [.qubit t]⟩),
+          rotStmt atol "Ry" t (eAxis 1) (-θ1 / 2), rotStmt atol "Rz" t (eAxis 2) (-θ2)] i j‖) ∧
+      shortcutPhase atol t n α φ θ1 θ2
+        = Complex.arg (rot n α φ i j /
+            listOp [rotStmt atol "Rz" t (eAxis 2) θ2, rotStmt atol "Ry" t (eAxis 1) (θ1 / 2),
+              (.bsr t (eAxis 0) Real.pi (Real.pi / 2), some ⟨"X", [.qubit t]⟩),
+              rotStmt atol "Ry" t (eAxis 1) (-θ1 / 2), rotStmt atol "Rz" t (eAxis 2) (-θ2)] i j
+          * listOp [rotStmt atol "Rz" t (eAxis 2) θ2, rotStmt atol "Ry" t (eAxis 1) (θ1 / 2),
+              rotStmt atol "Ry" t (eAxis 1) (-θ1 / 2), rotStmt atol "Rz" t (eAxis 2) (-θ2)] 0 0) := by
+  unfold shortcutPhase
+  simp only [two_real, xStmt_real atol h0 h1, List.cons_append, List.nil_append]
+  set W := prod2 [rotStmt atol "Rz" t (eAxis 2) θ2, rotStmt atol "Ry" t (eAxis 1) (θ1 / 2),
+          (.bsr t (eAxis 0) Real.pi (Real.pi / 2), some ⟨"X", [.qubit t]⟩),
+          rotStmt atol "Ry" t (eAxis 1) (-θ1 / 2), rotStmt atol "Rz" t (eAxis 2) (-θ2)] with hWdef
+  have hWn : W.n = 2 := prod2_n _
+  obtain ⟨hl, hmax, -⟩ := argmaxAbs_spec W (by omega)
+  rw [hWn] at hl hmax
+  set l := argmaxAbs W
+  have hi : l / 2 < 2 := by omega
+  have hj : l % 2 < 2 := by omega
+  refine ⟨⟨l / 2, hi⟩, ⟨l % 2, hj⟩, ?_, ?_⟩
+  · intro i' j'
+    have := hmax (i'.val * 2 + j'.val) (by omega)
+    rw [Mat.absAt_eq, Mat.absAt_eq, ← Mat.get_eq_flat W hWn, Mat.flat_eq_get W hWn] at this
+    rw [← prod2_toMatrixOn]
+    exact this
+  · have e1 : ((can1 n α φ).d.getD l Cx.zero).toC = rot n α φ ⟨l / 2, hi⟩ ⟨l % 2, hj⟩ := by
+      have := Mat.flat_eq_get (can1 n α φ) (can1_n n α φ) l
+      unfold Mat.flat at this
+      rw [this]
+      exact can1_get n α φ ⟨l / 2, hi⟩ ⟨l % 2, hj⟩
+    have e2 : (W.d.getD l Cx.zero).toC = W.toMatrixOn 2 ⟨l / 2, hi⟩ ⟨l % 2, hj⟩ := by
+      have := Mat.flat_eq_get W hWn l
+      unfold Mat.flat at this
+      rw [this]; rfl
+    show Complex.arg (Cx.toC _) = _
+    rw [Cx.toC_mul, Cx.toC_div, e1, e2, prod2_toMatrixOn]
+    congr 2
+    rw [← prod2_toMatrixOn]; rfl
+
+/-- the `X` gate as a rotation record (what `gstmtToRot (X(t))` is at ℝ) -/
+noncomputable def xRot (t : Int) : Rot ℝ := ⟨t, eAxis 0, Real.pi, Real.pi / 2, some ⟨"X", [.qubit t]⟩⟩
+
+/-- crisp hypotheses of the one-CNOT path for the intermediate values `xu = compose(X, U)` and its Z-Y-Z angles -/
+structure ShortcutCrisp (atol : ℝ) (t : Int) (n : Vec3 ℝ) (α φ : ℝ) (xu : Rot ℝ) (θ0 θ1 θ2 : ℝ) : Prop where
+  /-- the guard `|(θ0 − θ2) mod 2π| < atol` fires, and honestly -/
+  guard : |pymod (θ0 - θ2) (2 * Real.pi)| < atol
+  guard_crisp : pymod (θ0 - θ2) (2 * Real.pi) = 0
+  /-- the three tests of the Z-Y-Z decomposition of `xu` are crisp (as in `aba_crisp`) -/
+  cπ : |xu.angle - Real.pi| < atol → xu.angle = Real.pi
+  ca : |xu.angle - Real.pi| < atol → |xu.axis.2.2| < atol → xu.axis.2.2 = 0
+  cs : ¬ (|xu.angle - Real.pi| < atol ∧ |xu.axis.2.2| < atol) →
+        Real.sin (xu.angle / 2)^2 * (xu.axis.2.1^2 + xu.axis.1^2) < atol^2 →
+        Real.sin (xu.angle / 2)^2 * (xu.axis.2.1^2 + xu.axis.1^2) = 0
+  /-- the identity filter is crisp on the five emitted angles -/
+  fil : ∀ x ∈ [θ2, θ1 / 2, -θ1 / 2, -θ2, shortcutPhase atol t n α φ θ1 θ2],
+        |normalizeAngle atol x| < atol → normalizeAngle atol x = 0
+
+theorem unitVec_iff (v : Vec3 ℝ) : UnitVec v ↔ v.1 ^ 2 + v.2.1 ^ 2 + v.2.2 ^ 2 = 1 := by
+  unfold UnitVec; constructor <;> intro h <;> nlinarith
+
+theorem rot_ne_zero (n : Vec3 ℝ) (α φ : ℝ) (hn : n.1^2 + n.2.1^2 + n.2.2^2 = 1) : rot n α φ ≠ 0 := by
+  intro h
+  have := rot_mul_conjTranspose_self n α φ hn
+  rw [h, Matrix.zero_mul] at this
+  have h00 := congrFun (congrFun this 0) 0
+  simp at h00
+
+/-- **cnot_sem, one-CNOT (shortcut) path.**  If the guard fires and every tolerance test on the way is crisp
+    (composition `X·U`: `compose_crisp`'s hypotheses; Z-Y-Z of the result; the guard; the identity filter), the emitted
+    circuit `B · CNOT · A · Rz_c(ph)` is `s • (|0⟩⟨0|⊗1 + |1⟩⟨1|⊗U)`, `‖s‖ = 1`: the phase the code measures numerically,
+    `ph = arg(U_l/W_l·(AB)₀₀)`, is exactly the relative phase between the two control branches. -/
+theorem cnot_shortcut_sem (atol : ℝ) (c t : Int) (n : Vec3 ℝ) (α φ : ℝ) (nm : Option (Named ℝ))
+    (out : List (GStmt ℝ))
+    (hat : 0 < atol) (hat' : atol ≤ Real.pi / 2) (hn : n.1^2 + n.2.1^2 + n.2.2^2 = 1)
+    (hcrisp : |Real.sin (cTheta (xRot t) ⟨t, n, α, φ, none⟩ / 2)| < atol →
+        Real.sin (cTheta (xRot t) ⟨t, n, α, φ, none⟩ / 2) = 0)
+    (hround : ¬ |Real.sin (cTheta (xRot t) ⟨t, n, α, φ, none⟩ / 2)| < atol →
+      roundTo s7 (cAxis (xRot t) ⟨t, n, α, φ, none⟩).1 = (cAxis (xRot t) ⟨t, n, α, φ, none⟩).1 ∧
+      roundTo s7 (cAxis (xRot t) ⟨t, n, α, φ, none⟩).2.1 = (cAxis (xRot t) ⟨t, n, α, φ, none⟩).2.1 ∧
+      roundTo s7 (cAxis (xRot t) ⟨t, n, α, φ, none⟩).2.2 = (cAxis (xRot t) ⟨t, n, α, φ, none⟩).2.2 ∧
+      roundTo s7 ((xRot t).phase + φ) = (xRot t).phase + φ)
+    (hsc : ∀ xu θ0 θ1 θ2, composeRot atol (xRot t) ⟨t, n, α, φ, none⟩ = .ok xu →
+        abaAngles atol .ZYZ xu.angle xu.axis = .ok (θ0, θ1, θ2) → ShortcutCrisp atol t n α φ xu θ0 θ1 θ2)
+    (h : cnotDecompose atol (.ctrl c (.bsr t n α φ), nm) = .ok out) :
+    c ≠ t ∧ ∃ s : ℂ, ‖s‖ = 1 ∧ listOp4 c t out = s • bd 1 (rot n α φ) := by
+  have hpi := Real.pi_pos
+  have hatπ : atol < Real.pi := by linarith
+  obtain ⟨xu, θ0, θ1, θ2, hct, hxu, hang, hout⟩ := cnot_form_shortcut h
+  have e : (π / sc 2 : ℝ) = Real.pi / 2 := by simp
+  rw [e, pi_real, normalizeAngle_id_of_window atol _ hat.le hatπ (by linarith) (by linarith),
+    normalizeAngle_id_of_window atol _ hat.le hatπ (by linarith) (by linarith)] at hxu
+  have hxu' : composeRot atol (xRot t) ⟨t, n, α, φ, none⟩ = .ok xu := hxu
+  obtain ⟨hg, hg0, hcπ, hca, hcs, hfil⟩ := hsc xu θ0 θ1 θ2 hxu' hang
+  refine ⟨hct, ?_⟩
+  have hout' := hout (by simpa using hg)
+  simp only [two_real] at hout'
+  subst hout'
+  -- the composition `xu = X·U` up to phase
+  have hXu : UnitVec (xRot t).axis := by simp [UnitVec, xRot, eAxis]
+  have hUu : UnitVec (⟨t, n, α, φ, none⟩ : Rot ℝ).axis := (unitVec_iff n).2 hn
+  obtain ⟨z, hz, hzeq⟩ := composeRot_sem atol hat (xRot t) ⟨t, n, α, φ, none⟩ xu hXu hUu hxu' hcrisp hround
+  have hzeq' : rot xu.axis xu.angle xu.phase = z • (Xop * rot n α φ) := hzeq
+  -- `xu` has a unit axis and an angle in range
+  have hxu_ok : (xu.axis.1^2 + xu.axis.2.1^2 + xu.axis.2.2^2 = 1) ∧
+      (-Real.pi + atol ≤ xu.angle ∧ xu.angle < Real.pi + atol) := by
+    obtain ⟨_, _, hc | hc⟩ := compose_crisp atol hat (xRot t) ⟨t, n, α, φ, none⟩ xu hXu hUu hxu' hcrisp hround
+    · obtain ⟨_, _, hr, _, _⟩ := hc
+      rw [hr]
+      simp only [identityRot, one_real, zero_real]
+      refine ⟨by norm_num, by linarith, by linarith⟩
+    · obtain ⟨_, _, _, hu, _, _, _, hang'⟩ := hc
+      exact ⟨(unitVec_iff _).1 hu, by rw [hang']; exact normalizeAngle_range atol _ hat.le hatπ⟩
+  -- Z-Y-Z of `xu`
+  have hV : rot (eAxis 2) θ2 0 * rot (eAxis 1) θ1 0 * rot (eAxis 2) θ0 0 = rot xu.axis xu.angle 0 :=
+    aba_rot atol .ZYZ xu.angle xu.axis hat hxu_ok.1 hxu_ok.2.1 hxu_ok.2.2 hcπ hca hcs hang
+  -- the guard: θ2 ≡ θ0 (mod 2π)
+  obtain ⟨j, hj⟩ : ∃ j : ℤ, θ2 = θ0 + 2 * Real.pi * j := by
+    refine ⟨-⌊(θ0 - θ2) / (2 * Real.pi)⌋, ?_⟩
+    simp only [pymod, trig_floor_real] at hg0
+    push_cast; linarith
+  have hθ2 : rot (eAxis 2) θ2 0 = ((-1 : ℂ) ^ j) • rot (eAxis 2) θ0 0 := by
+    rw [hj, rot_add_int_mul_two_pi]
+  -- `X·Rz(θ2)Ry(θ1)Rz(θ2) = ν • U`
+  set U := rot n α φ with hU
+  have hXV : Xop * (rot (eAxis 2) θ2 0 * rot (eAxis 1) θ1 0 * rot (eAxis 2) θ2 0)
+      = ((-1 : ℂ) ^ j * (Complex.exp (-(I * xu.phase)) * z)) • U := by
+    have hlast : ∀ M : Matrix (Fin 2) (Fin 2) ℂ,
+        M * rot (eAxis 2) θ2 0 = ((-1 : ℂ) ^ j) • (M * rot (eAxis 2) θ0 0) := fun M => by
+      rw [hθ2, Matrix.mul_smul]
+    have h0 : rot xu.axis xu.angle 0 = Complex.exp (-(I * xu.phase)) • rot xu.axis xu.angle xu.phase := by
+      rw [rot_phase_smul xu.axis xu.angle xu.phase, smul_smul, ← Complex.exp_add]; simp
+    rw [hlast, hV, h0, hzeq']
+    simp only [Matrix.mul_smul, smul_smul]
+    rw [← Matrix.mul_assoc, Xop_mul_self, Matrix.one_mul]
+  set ν : ℂ := (-1 : ℂ) ^ j * (Complex.exp (-(I * xu.phase)) * z) with hν
+  have hνn : ‖ν‖ = 1 := by
+    rw [hν, norm_mul, norm_mul, norm_neg_one_zpow, norm_exp_neg_I_mul, hz]; norm_num
+  -- the emitted lists
+  obtain ⟨ε, hε, hAB, hW, hL⟩ := listOp4_cnot_shortcut atol hat hatπ c t hct θ1 θ2
+    (shortcutPhase atol t n α φ θ1 θ2)
+  rw [hXV] at hW hL
+  obtain ⟨i, jj, hmax, hph⟩ := shortcutPhase_spec atol hat hatπ t n α φ θ1 θ2
+  rw [hW, hAB] at hph
+  rw [hW] at hmax
+  -- the pivot entry of `U` is not zero
+  have hμn : ‖ε * ν‖ = 1 := by rw [norm_mul, hε, hνn, one_mul]
+  have hμ0 : ε * ν ≠ 0 := by intro h0; rw [h0, norm_zero] at hμn; exact zero_ne_one hμn
+  have hUij : U i jj ≠ 0 := by
+    intro h0
+    apply rot_ne_zero n α φ hn
+    ext i' j'
+    have := hmax i' j'
+    simp only [Matrix.smul_apply, smul_eq_mul, h0, mul_zero, norm_zero, norm_le_zero_iff, mul_eq_zero] at this
+    rcases this with h | h | h
+    · exact absurd h (left_ne_zero_of_mul hμ0)
+    · exact absurd h (right_ne_zero_of_mul hμ0)
+    · simpa using h
+  obtain ⟨k, hk⟩ := normalizeAngle_congr atol (shortcutPhase atol t n α φ θ1 θ2)
+  have hph' : shortcutPhase atol t n α φ θ1 θ2 = Complex.arg (U i jj / ((ε * ν) • U) i jj * ε) := by
+    rw [hph]; simp only [smul_smul, Matrix.smul_apply, smul_eq_mul, mul_assoc, Matrix.one_apply_eq, mul_one]
+    rfl
+  obtain ⟨b1, b2⟩ := cnot_shortcut_phase U ((ε * ν) • U) ε (ε * ν) hε hμn rfl i jj hUij _ _ k hph' hk
+  refine ⟨Complex.exp (-(I * (normalizeAngle atol (shortcutPhase atol t n α φ θ1 θ2) / 2 : ℝ))) * ε, ?_, ?_⟩
+  · rw [norm_mul, hε, mul_one]; exact norm_exp_neg_I_mul _
+  · rw [filter_identities_sem4, hL, smul_smul ε ν, b1, b2, bd_smul]
+    intro g hg
+    simp only [List.mem_cons, List.not_mem_nil, or_false] at hg
+    rcases hg with rfl | rfl | rfl | rfl | rfl | rfl
+    · exact crispId4_rotStmt atol hat.le hatπ _ _ _ _ (hfil _ (by simp))
+    · exact crispId4_rotStmt atol hat.le hatπ _ _ _ _ (hfil _ (by simp))
+    · exact crispId4_cnotStmt atol hat hat' c t
+    · exact crispId4_rotStmt atol hat.le hatπ _ _ _ _ (hfil _ (by simp))
+    · exact crispId4_rotStmt atol hat.le hatπ _ _ _ _ (hfil _ (by simp))
+    · exact crispId4_rotStmt atol hat.le hatπ _ _ _ _ (hfil _ (by simp))
+
+/-- crisp hypotheses of the two-CNOT (general) path: those of `aba_crisp` for Z-Y-Z on the target rotation, and the
+    identity filter on the six emitted angles -/
+structure GeneralCrisp (atol : ℝ) (n : Vec3 ℝ) (α φ : ℝ) : Prop where
+  range : -Real.pi + atol ≤ α ∧ α < Real.pi + atol
+  cπ : |α - Real.pi| < atol → α = Real.pi
+  ca : |α - Real.pi| < atol → |n.2.2| < atol → n.2.2 = 0
+  cs : ¬ (|α - Real.pi| < atol ∧ |n.2.2| < atol) →
+        Real.sin (α / 2)^2 * (n.2.1^2 + n.1^2) < atol^2 → Real.sin (α / 2)^2 * (n.2.1^2 + n.1^2) = 0
+  fil : ∀ t0 t1 t2, abaAngles atol .ZYZ α n = .ok (t0, t1, t2) →
+        ∀ x ∈ [(t0 - t2) / 2, -(t0 + t2) / 2, -t1 / 2, t1 / 2, t2, φ],
+          |normalizeAngle atol x| < atol → normalizeAngle atol x = 0
+
+/-- **cnot_sem** (both paths).  For `g = ControlledGate(c, R_n(α, φ) on t)`, `n` a unit axis: whichever path the
+    decomposer takes — decided by the guard on the Z-Y-Z angles of `xu = compose(X, U)` — if the tolerance tests of that
+    path are crisp then the emitted circuit equals controlled-`U` up to one global phase:
+    `listOp4 c t out = s • (|0⟩⟨0|⊗1 + |1⟩⟨1|⊗U)`, `‖s‖ = 1`; equivalently (`ctrl_equiv_iff`) the control-off block is
+    `s•1` and the control-on block is `s•U` with the same `s`. -/
+theorem cnot_sem (atol : ℝ) (c t : Int) (n : Vec3 ℝ) (α φ : ℝ) (nm : Option (Named ℝ)) (out : List (GStmt ℝ))
+    (hat : 0 < atol) (hat' : atol ≤ Real.pi / 2) (hn : n.1^2 + n.2.1^2 + n.2.2^2 = 1)
+    (hpath : ∀ xu θ0 θ1 θ2, composeRot atol (xRot t) ⟨t, n, α, φ, none⟩ = .ok xu →
+        abaAngles atol .ZYZ xu.angle xu.axis = .ok (θ0, θ1, θ2) →
+        (ShortcutCrisp atol t n α φ xu θ0 θ1 θ2 ∧
+          (|Real.sin (cTheta (xRot t) ⟨t, n, α, φ, none⟩ / 2)| < atol →
+            Real.sin (cTheta (xRot t) ⟨t, n, α, φ, none⟩ / 2) = 0) ∧
+          (¬ |Real.sin (cTheta (xRot t) ⟨t, n, α, φ, none⟩ / 2)| < atol →
+            roundTo s7 (cAxis (xRot t) ⟨t, n, α, φ, none⟩).1 = (cAxis (xRot t) ⟨t, n, α, φ, none⟩).1 ∧
+            roundTo s7 (cAxis (xRot t) ⟨t, n, α, φ, none⟩).2.1 = (cAxis (xRot t) ⟨t, n, α, φ, none⟩).2.1 ∧
+            roundTo s7 (cAxis (xRot t) ⟨t, n, α, φ, none⟩).2.2 = (cAxis (xRot t) ⟨t, n, α, φ, none⟩).2.2 ∧
+            roundTo s7 ((xRot t).phase + φ) = (xRot t).phase + φ)) ∨
+        (¬ |pymod (θ0 - θ2) (2 * Real.pi)| < atol ∧ GeneralCrisp atol n α φ))
+    (h : cnotDecompose atol (.ctrl c (.bsr t n α φ), nm) = .ok out) :
+    c ≠ t ∧ ∃ s : ℂ, ‖s‖ = 1 ∧ listOp4 c t out = s • bd 1 (rot n α φ) := by
+  have hpi := Real.pi_pos
+  have hatπ : atol < Real.pi := by linarith
+  obtain ⟨xu, θ0, θ1, θ2, -, hxu, hang, -⟩ := cnot_form_shortcut h
+  have e : (π / sc 2 : ℝ) = Real.pi / 2 := by simp
+  rw [e, pi_real, normalizeAngle_id_of_window atol _ hat.le hatπ (by linarith) (by linarith),
+    normalizeAngle_id_of_window atol _ hat.le hatπ (by linarith) (by linarith)] at hxu
+  have hxu' : composeRot atol (xRot t) ⟨t, n, α, φ, none⟩ = .ok xu := hxu
+  have uniq : ∀ xu' θ0' θ1' θ2', composeRot atol (xRot t) ⟨t, n, α, φ, none⟩ = .ok xu' →
+      abaAngles atol .ZYZ xu'.angle xu'.axis = .ok (θ0', θ1', θ2') →
+      xu' = xu ∧ θ0' = θ0 ∧ θ1' = θ1 ∧ θ2' = θ2 := by
+    intro xu' θ0' θ1' θ2' h1 h2
+    rw [hxu'] at h1
+    injection h1 with h1
+    subst h1
+    rw [hang] at h2
+    injection h2 with h2
+    simp only [Prod.mk.injEq] at h2
+    exact ⟨rfl, h2.1.symm, h2.2.1.symm, h2.2.2.symm⟩
+  rcases hpath xu θ0 θ1 θ2 hxu' hang with ⟨hs, hc, hr⟩ | ⟨hg, hgc⟩
+  · refine cnot_shortcut_sem atol c t n α φ nm out hat hat' hn hc hr ?_ h
+    intro xu' θ0' θ1' θ2' h1 h2
+    obtain ⟨rfl, rfl, rfl, rfl⟩ := uniq xu' θ0' θ1' θ2' h1 h2
+    exact hs
+  · refine cnot_general_sem atol c t n α φ nm out hat hat' hn hgc.range.1 hgc.range.2 hgc.cπ hgc.ca hgc.cs
+      ?_ hgc.fil h
+    intro xu' θ0' θ1' θ2' h1 h2
+    obtain ⟨rfl, rfl, rfl, rfl⟩ := uniq xu' θ0' θ1' θ2' h1 h2
+    exact hg
+
+/-! #### totality of the CNOT decomposer and a worked example (controlled `e^{i/3}·Rx(π/2)`, two-CNOT path) -/
+
+/-- the CNOT decomposer succeeds as soon as its intermediate computations do -/
+theorem cnotDecompose_ok (atol : ℝ) (hat : 0 < atol) (hat' : atol < Real.pi) (c t : Int) (hct : c ≠ t) (n : Vec3 ℝ)
+    (α φ : ℝ) (nm : Option (Named ℝ)) (xu : Rot ℝ) (θs ts : ℝ × ℝ × ℝ)
+    (hxu : composeRot atol (xRot t) ⟨t, n, α, φ, none⟩ = .ok xu)
+    (hang : abaAngles atol .ZYZ xu.angle xu.axis = .ok θs)
+    (hang' : abaAngles atol .ZYZ α n = .ok ts) :
+    ∃ out, cnotDecompose atol (.ctrl c (.bsr t n α φ), nm) = .ok out := by
+  have hX : named atol "X" [.qubit t] = .ok (xStmt atol t (eAxis 0)) :=
+    (named_X_iff atol t _).2 ⟨_, mkAxis_axisLit 0, rfl⟩
+  have hC : named atol "CNOT" [.qubit c, .qubit t] = .ok (cnotStmt atol c t (eAxis 0)) :=
+    (named_CNOT_iff atol c t _).2 ⟨_, mkAxis_axisLit 0, hct, rfl⟩
+  have hY := fun θ => named_rot_real atol hat.le hat' 1 t θ
+  have hZ := fun q θ => named_rot_real atol hat.le hat' 2 q θ
+  simp only [rotName] at hY hZ
+  have hxr : gstmtToRot (xStmt atol t (eAxis 0)) = some (xRot t) := by
+    rw [xStmt_real atol hat hat']; rfl
+  obtain ⟨θ0, θ1, θ2⟩ := θs
+  obtain ⟨t0, t1, t2⟩ := ts
+  unfold cnotDecompose
+  simp only [bind, Except.bind, pure, Except.pure, hX, hxr, hxu, hang, hang', hC, hY, hZ]
+  split_ifs <;> exact ⟨_, rfl⟩
+
+/-- the example target: `e^{i/3}·Rx(π/2)` on qubit `1` -/
+noncomputable def dsExU : Rot ℝ := ⟨1, (1, 0, 0), Real.pi / 2, 1 / 3, none⟩
+
+theorem dsExU_unit : UnitVec dsExU.axis := by simp [UnitVec, dsExU]
+theorem xRot_unit (t : Int) : UnitVec (xRot t).axis := by simp [UnitVec, xRot, eAxis]
+
+theorem dsEx2_cTheta : cTheta (xRot 1) dsExU = 3 * Real.pi / 2 := by
+  have hpi := Real.pi_pos
+  have hW : cW (xRot 1) dsExU = -Real.cos (Real.pi / 4) := by
+    simp [cW, xRot, dsExU, eAxis, Vec3.dot, Real.cos_pi_div_two, Real.sin_pi_div_two,
+      show Real.pi / 2 / 2 = Real.pi / 4 by ring]
+  rw [cTheta, hW, Real.arccos_neg, Real.arccos_cos (by linarith) (by linarith)]; ring
+
+theorem dsEx2_sin : Real.sin (cTheta (xRot 1) dsExU / 2) = Real.sqrt 2 / 2 := by
+  rw [dsEx2_cTheta, show 3 * Real.pi / 2 / 2 = Real.pi - Real.pi / 4 by ring, Real.sin_pi_sub,
+    Real.sin_pi_div_four]
+
+theorem dsEx2_cAxis : cAxis (xRot 1) dsExU = (1, 0, 0) := by
+  have hs2 : Real.sqrt 2 ≠ 0 := by positivity
+  unfold cAxis
+  rw [dsEx2_sin]
+  simp only [cVi, xRot, dsExU, eAxis, Vec3.cross, Vec3.get, Real.cos_pi_div_two, Real.sin_pi_div_two,
+    show Real.pi / 2 / 2 = Real.pi / 4 by ring, Real.cos_pi_div_four, Real.sin_pi_div_four]
+  refine Prod.ext ?_ (Prod.ext ?_ ?_) <;> (simp only; field_simp) <;> ring
+
+theorem dsEx2_nA : normalizeAngle (1 / 1000 : ℝ) (3 * Real.pi / 2) = -(Real.pi / 2) := by
+  have hpi := Real.two_le_pi
+  obtain ⟨k, hk, hr1, hr2⟩ := normalizeAngle_spec (1 / 1000 : ℝ) (3 * Real.pi / 2) (by norm_num) (by linarith)
+  have : normalizeAngle (1 / 1000 : ℝ) (3 * Real.pi / 2) = -(Real.pi / 2) + 2 * Real.pi * ((k + 1 : ℤ) : ℝ) := by
+    rw [hk]; push_cast; ring
+  exact eq_of_congr_of_window this hr1 (by linarith) (by linarith) (by linarith)
+
+/-- `compose(X, U)` for the example: the rotation by `-π/2` about `x` (the phase is irrelevant here) -/
+theorem dsEx2_compose : ∃ xu, composeRot (1 / 1000 : ℝ) (xRot 1) dsExU = .ok xu ∧ xu.axis = (1, 0, 0) ∧
+    xu.angle = -(Real.pi / 2) := by
+  have hs : ¬ |Real.sin (cTheta (xRot 1) dsExU / 2)| < (1 / 1000 : ℝ) := by
+    rw [dsEx2_sin, abs_of_pos (by positivity)]
+    have : 1 ≤ Real.sqrt 2 := by
+      nlinarith [Real.sqrt_nonneg 2, Real.mul_self_sqrt (show (0 : ℝ) ≤ 2 by norm_num)]
+    linarith
+  rw [composeRot_real _ _ _ (xRot_unit 1) dsExU_unit rfl, if_neg hs, dsEx2_cAxis]
+  have r1 : roundTo s7 (1 : ℝ) = 1 := roundTo_exact 1 10000000 (by rw [s7_eq]; norm_num)
+  have r0 : roundTo s7 (0 : ℝ) = 0 := roundTo_exact 0 0 (by simp)
+  simp only [r1, r0]
+  rw [mkAxis_unit (1, 0, 0) (by simp [UnitVec])]
+  exact ⟨_, rfl, rfl, by simp only [dsEx2_cTheta, dsEx2_nA]⟩
+
+theorem dsEx2_abaAngles : abaAngles (1 / 1000 : ℝ) .ZYZ (-(Real.pi / 2)) (1, 0, 0)
+    = .ok (Real.pi / 2, -(Real.pi / 2), -(Real.pi / 2)) := by
+  have hpi := Real.two_le_pi
+  have hnp : ¬ |-(Real.pi / 2) - Real.pi| < (1 / 1000 : ℝ) := by
+    rw [abs_of_neg (by linarith)]; linarith
+  have h4 : -(Real.pi / 2) / 2 = -(Real.pi / 4) := by ring
+  have hc : 0 < Real.cos (Real.pi / 4) := by rw [Real.cos_pi_div_four]; positivity
+  have hs : ¬ |Real.sin (-(Real.pi / 4))| < (1 / 1000 : ℝ) := by
+    rw [Real.sin_neg, abs_neg, Real.sin_pi_div_four, abs_of_pos (by positivity)]
+    have : 1 ≤ Real.sqrt 2 := by
+      nlinarith [Real.sqrt_nonneg 2, Real.mul_self_sqrt (show (0 : ℝ) ≤ 2 by norm_num)]
+    linarith
+  rw [ABA.abaAngles_unit _ _ _ _ (by norm_num) (by linarith) (by linarith)]
+  have hp : ABA.atan2 0 (Real.cos (Real.pi / 4)) = 0 := by
+    unfold ABA.atan2
+    have : (⟨Real.cos (Real.pi / 4), 0⟩ : ℂ) = ((Real.cos (Real.pi / 4) : ℝ) : ℂ) := rfl
+    rw [this, Complex.arg_ofReal_of_nonneg hc.le]
+  have hθ2 : ABA.csgn (2 * Real.arccos (ABA.clamp (Real.cos (Real.pi / 4)))) (-(Real.pi / 2))
+      = -(Real.pi / 2) := by
+    rw [ABA.clamp_of_mem (by linarith) (Real.cos_le_one _), Real.arccos_cos (by linarith) (by linarith)]
+    unfold ABA.csgn
+    rw [if_neg (by linarith), abs_of_nonneg (by linarith)]; ring
+  have hm : ABA.csgn (2 * Real.arccos (ABA.clamp 0)) 1 = Real.pi := by
+    rw [ABA.clamp_of_mem (by norm_num) (by norm_num), Real.arccos_zero]
+    unfold ABA.csgn
+    rw [if_pos (by norm_num), abs_of_nonneg (by linarith)]; ring
+  have hptm : ABA.ptm (1 / 1000) 0 0 1 (-(Real.pi / 2)) = (0, -(Real.pi / 2), Real.pi) := by
+    unfold ABA.ptm
+    rw [if_neg hnp]
+    simp only [h4, Real.cos_neg, zero_mul, mul_zero, add_zero, Real.sqrt_one, mul_one, hp, hθ2, if_neg hs,
+      zero_div, hm]
+  simp only [ABAKind.ia, ABAKind.ib, ABAKind.ic, Vec3.get, hptm, ABA.finish, ABAKind.sinMNeg]
+  norm_num
+
+/-- **non-vacuity of `cnot_sem`** (two-CNOT path): the controlled `e^{i/3}·Rx(π/2)` (control `0`, target `1`) is
+    decomposed, and the emitted circuit is the controlled gate up to one global phase. -/
+example : ∃ out, cnotDecompose (1 / 1000 : ℝ) (.ctrl 0 (.bsr 1 (1, 0, 0) (Real.pi / 2) (1 / 3)), none) = .ok out ∧
+    ∃ s : ℂ, ‖s‖ = 1 ∧ listOp4 0 1 out = s • bd 1 (rot (1, 0, 0) (Real.pi / 2) (1 / 3)) := by
+  have hpi := Real.two_le_pi
+  obtain ⟨xu, hxu, hax, han⟩ := dsEx2_compose
+  have hang : abaAngles (1 / 1000 : ℝ) .ZYZ xu.angle xu.axis
+      = .ok (Real.pi / 2, -(Real.pi / 2), -(Real.pi / 2)) := by rw [hax, han]; exact dsEx2_abaAngles
+  obtain ⟨out, hout⟩ := cnotDecompose_ok (1 / 1000) (by norm_num) (by linarith) 0 1 (by decide) (1, 0, 0)
+    (Real.pi / 2) (1 / 3) none xu _ _ hxu hang ex_abaAngles
+  refine ⟨out, hout, (cnot_sem (1 / 1000) 0 1 (1, 0, 0) (Real.pi / 2) (1 / 3) none out (by norm_num) (by linarith)
+    (by norm_num) ?_ hout).2⟩
+  intro xu' θ0 θ1 θ2 h1 h2
+  have hxu' : composeRot (1 / 1000 : ℝ) (xRot 1) ⟨1, (1, 0, 0), Real.pi / 2, 1 / 3, none⟩ = .ok xu := hxu
+  rw [hxu'] at h1
+  injection h1 with h1
+  subst h1
+  rw [hang] at h2
+  injection h2 with h2
+  simp only [Prod.mk.injEq] at h2
+  obtain ⟨rfl, rfl, rfl⟩ := h2
+  right
+  have hnp : ¬ |Real.pi / 2 - Real.pi| < (1 / 1000 : ℝ) := by
+    rw [abs_of_neg (by linarith)]; linarith
+  refine ⟨?_, ⟨⟨by linarith, by linarith⟩, fun h => absurd h hnp, fun h => absurd h hnp, ?_, ?_⟩⟩
+  · -- the guard does not fire: `(θ0 − θ2) mod 2π = π`
+    have hfl : ⌊(Real.pi / 2 - -(Real.pi / 2)) / (2 * Real.pi)⌋ = 0 := by
+      rw [show (Real.pi / 2 - -(Real.pi / 2)) / (2 * Real.pi) = 1 / 2 by field_simp; ring]
+      norm_num
+    simp only [pymod, trig_floor_real, hfl]
+    rw [abs_of_pos (by norm_num; linarith)]
+    norm_num; linarith
+  · intro _ h
+    exfalso
+    have : Real.sin (Real.pi / 2 / 2) = Real.sqrt 2 / 2 := by
+      rw [show Real.pi / 2 / 2 = Real.pi / 4 by ring, Real.sin_pi_div_four]
+    rw [this] at h
+    have hs : Real.sqrt 2 * Real.sqrt 2 = 2 := Real.mul_self_sqrt (by norm_num)
+    norm_num at h
+    nlinarith [hs]
+  · intro t0 t1 t2 he x hx habs
+    rw [ex_abaAngles] at he
+    injection he with he
+    simp only [Prod.mk.injEq] at he
+    obtain ⟨rfl, rfl, rfl⟩ := he
+    simp only [List.mem_cons, List.not_mem_nil, or_false] at hx
+    have hid : ∀ y : ℝ, -Real.pi + 1 / 1000 ≤ y → y < Real.pi + 1 / 1000 →
+        normalizeAngle (1 / 1000 : ℝ) y = y := fun y h1 h2 =>
+      normalizeAngle_id_of_window _ _ (by norm_num) (by linarith) h1 h2
+    rcases hx with rfl | rfl | rfl | rfl | rfl | rfl
+    · exfalso; rw [hid _ (by linarith) (by linarith), abs_of_pos (by linarith)] at habs; linarith
+    · rw [show -(Real.pi / 2 + -(Real.pi / 2)) / 2 = (0 : ℝ) by ring]
+      exact hid 0 (by linarith) (by linarith)
+    · exfalso; rw [hid _ (by linarith) (by linarith), abs_of_neg (by linarith)] at habs; linarith
+    · exfalso; rw [hid _ (by linarith) (by linarith), abs_of_pos (by linarith)] at habs; linarith
+    · exfalso; rw [hid _ (by linarith) (by linarith), abs_of_neg (by linarith)] at habs; linarith
+    · exfalso; rw [hid _ (by linarith) (by linarith), abs_of_pos (by norm_num)] at habs; norm_num at habs
+
+/-- non-vacuity of `cnot_shortcut_phase`: `U = σx`, `W = i•σx`, `A·B = 1`; the measured phase is `arg(1/i) = -π/2`
+    and both branches get the factor `e^{iπ/4}`. -/
+example : Complex.exp (-(I * ((-(Real.pi / 2)) / 2 : ℝ))) • ((1 : ℂ) • (1 : Matrix (Fin 2) (Fin 2) ℂ))
+      = (Complex.exp (-(I * ((-(Real.pi / 2)) / 2 : ℝ))) * 1) • 1 ∧
+    Complex.exp (I * ((-(Real.pi / 2)) / 2 : ℝ)) • (I • σx)
+      = (Complex.exp (-(I * ((-(Real.pi / 2)) / 2 : ℝ))) * 1) • σx := by
+  refine cnot_shortcut_phase σx (I • σx) 1 I (by simp) (by simp) rfl 0 1 (by simp [σx])
+    (-(Real.pi / 2)) (-(Real.pi / 2)) 0 ?_ (by simp)
+  have : σx 0 1 / (I • σx) 0 1 * 1 = -I := by simp [σx, Complex.inv_I]
+  rw [this, Complex.arg_neg_I]
+
 end OSq
+
+
+
+
+
+
+
+
+
+
 
 
 
@@ -1026,3 +1628,5 @@ end OSq
 #print axioms OSq.mckay_generic_rot
 #print axioms OSq.mckay_sem
 #print axioms OSq.cnot_general_sem
+#print axioms OSq.cnot_shortcut_sem
+#print axioms OSq.cnot_sem
